@@ -169,8 +169,8 @@ def _worker(args):
     rs = np.asarray(raw(jnp.asarray(cont[:, 0]), jnp.asarray(cat[:, 0])))
     rs_c = np.where(np.isnan(rs), -np.inf, rs)
     for i in range(count):
-      if is_filler[i] and (len(evals) - (1 if prior is not None else 0)) * batch < count:
-        continue      # fewer evaluations than requested candidates: untouched fillers are all that can be returned
+      if is_filler[i] and nsteps * batch < count:
+        continue      # a budget smaller than the request: untouched fillers are all that can be returned
       if not (rs_c[i] == rew[i] or abs(rs_c[i] - rew[i]) <= 1e-5):
         viol('the reported score of a returned candidate is not the score the function gives at that candidate',
              dict(out, candidate=i, reported=float(rew[i]), rescored=float(rs[i])))
